@@ -127,6 +127,39 @@ def run(ctx):
         if bad:
             ctx.violation('torch refract: ' + '; '.join(bad), rec, {'api': 'torch', 'fn': 'refract', 'what': 'refraction_law'})
 
+    # ---------------- the same normal ARRAY serves several calls (one mirror, many rays; reflecting twice off the same mirror): the caller's
+    # arrays are its own, a call must neither change them nor depend on earlier calls
+    for _ in range(ctx.n(6, 40)):
+        nfix = unit(rng) * 10 ** rng.uniform(-0.5, 0.5)
+        hitp = np.array([rng.uniform(-1, 1) for _ in range(3)])
+        nrm_np = np.array([hitp, nfix], dtype=np.float64)
+        nrm_t = torch.tensor(np.array([hitp, nfix]), dtype=torch.float64)
+        keep = nrm_np.copy()
+        ds = [unit(rng) for _ in range(3)]
+        ctx.case(('same_normal', tuple(np.round(nfix, 6))), True)
+        ctx.count('reflect/same_normal_array_reused')
+        for api in ('numpy', 'torch'):
+            ok = True
+            for d in ds:
+                exact = d - 2 * np.dot(d, nfix) / np.dot(nfix, nfix) * nfix
+                if api == 'numpy':
+                    r1 = np.array(np.asarray(NR.reflect(np.array([hitp, d]), nrm_np), dtype=np.float64).reshape(2, 3)[1])   # copy: the result may alias
+                    r2 = np.array(np.asarray(NR.reflect(np.array([hitp, r1]), nrm_np), dtype=np.float64).reshape(2, 3)[1])
+                else:
+                    r1 = LR.reflect(torch.tensor(np.array([hitp, d]), dtype=torch.float64), nrm_t).numpy().reshape(2, 3)[1].astype(np.float64).copy()
+                    r2 = LR.reflect(torch.tensor(np.array([hitp, r1]), dtype=torch.float64), nrm_t).numpy().reshape(2, 3)[1].astype(np.float64).copy()
+                tol_ = 1e-9 if api == 'numpy' else 5e-4
+                if not np.allclose(r1, exact, atol=tol_) or not np.allclose(r2, d, atol=10 * tol_):
+                    ctx.violation('%s reflect with ONE normal array used for several calls: ray %s reflects to %s (mirror image %s), reflecting again gives %s '
+                                  '(should restore the ray)' % (api, d.tolist(), r1.tolist(), exact.tolist(), r2.tolist()),
+                                  {'d': d.tolist(), 'n': nfix.tolist(), 'api': api, 'reuse': True},
+                                  {'api': api, 'fn': 'reflect', 'what': 'reused_normal'})
+                    ok = False
+                    break
+            if ok and api == 'numpy' and not np.array_equal(nrm_np, keep):
+                ctx.violation('numpy reflect changed the normal array it was given: %s -> %s' % (keep.tolist(), nrm_np.tolist()),
+                              {'n': nfix.tolist(), 'api': 'numpy', 'reuse': True}, {'api': 'numpy', 'fn': 'reflect', 'what': 'reused_normal'})
+
     # ---------------- mixed batches: one ray beyond the critical angle (flagged NaN) must not spoil the others of the same call.
     # Run under the watchdog (a non-returning call is C12's subject, not judged here).
     from ..lib.watchdog import Watchdog
